@@ -56,9 +56,12 @@ def walk(
     m: h.Module,
     parents: List[h.Instance],
     conns: Optional[Dict[str, h.Signal]] = None,
+    root: Optional[h.Module] = None,
 ) -> Generator[FlattenedInstance, None, None]:
     if conns is None:
         conns = {**m.signals, **m.ports}
+    if root is None:
+        root = m  # The Module being flattened, whose own names the path-names must not collide with
     for inst in m.instances.values():
         new_conns = {}
         new_parents = parents + [inst]
@@ -77,6 +80,16 @@ def walk(
                 raise TypeError(f"Invalid connection {sig}")
 
             new_sig_name = ":".join([p.name for p in parents] + [key])
+            if key not in conns and parents:
+                # An internal signal of a nested Module, about to be re-created under its path-name.
+                # Signals are matched *by name* in the flattened Module. Fail if that name is ambiguous,
+                # rather than silently merging two different nets.
+                if new_sig_name in root.namespace:
+                    msg = f"Cannot flatten {root}: path-name `{new_sig_name}` of a nested signal collides with its attribute of the same name"
+                    raise RuntimeError(msg)
+                if any(":" in name for name in [p.name for p in parents] + [key]):
+                    msg = f"Cannot flatten {root}: ambiguous path-name `{new_sig_name}`, nested names include the path separator"
+                    raise RuntimeError(msg)
             if key in conns:
                 target_sig = conns[key]
             elif key in m.signals:
@@ -92,7 +105,7 @@ def walk(
         if isinstance(inst.of, (h.PrimitiveCall, h.ExternalModuleCall)):
             yield FlattenedInstance(inst, new_parents, new_conns)
         else:
-            yield from walk(inst.of, new_parents, new_conns)
+            yield from walk(inst.of, new_parents, new_conns, root)
 
 
 def _find_signal_or_port(m: h.Module, name: str) -> h.Signal:
@@ -189,6 +202,9 @@ def flatten(m: h.Instantiable) -> h.Instantiable:
 
     # add all connections to the root level with names resolved
     for n in nodes:
+        if n.make_name() in new_module.namespace:
+            msg = f"Cannot flatten {m}: path-name `{n.make_name()}` of a nested instance collides with another attribute"
+            raise RuntimeError(msg)
         new_inst = new_module.add(n.inst.of(), name=n.make_name())
 
         for src_port_name, sig in n.conns.items():
